@@ -203,6 +203,39 @@ class Gen:
             return [A('U'), c, self.md(), q, *[sub() for _ in range(n)]]
         raise ValueError(kind)
 
+    def leafless(self, depth=3):
+        """a subtree without leaves (None nodes and empty containers only), nested up to `depth`"""
+        rng = self.rng
+        if depth <= 0 or rng.random() < 0.25:
+            return rng.choice([A('N'), [A('T')], [A('l')], [A('D')], [A('O')], [A('Q'), A('N')], [A('NT'), 2]])
+        kind = rng.choice(['T', 'l', 'D', 'O', 'Q', 'NT3', 'U'])
+        n = rng.choice([1, 1, 2, 3])
+        kids = [self.leafless(depth - 1) for _ in range(n)]
+        if kind in ('T', 'l'):
+            return [A(kind), *kids]
+        if kind in ('D', 'O'):
+            return [A(kind), *[[k, c] for k, c in zip(self.keyset(n, 'str'), kids)]]
+        if kind == 'Q':
+            return [A('Q'), A('N'), *kids]
+        if kind == 'NT3':
+            return [A('NT'), 3, kids[0]]
+        return [A('U'), rng.choice([1, 3]), A('N'), A('ok'), *kids]
+
+    def with_leafless(self, t, p=0.3, depth=3):
+        """replace some leaves of `t` by leafless subtrees (keeps at least the first leaf)"""
+        state = {'first': True}
+
+        def go(x):
+            if isinstance(x, Atom):
+                return x
+            if x[0] == 'L':
+                if state['first']:
+                    state['first'] = False
+                    return x
+                return self.leafless(depth) if self.rng.random() < p else x
+            return map_children(x, go)
+        return go(t)
+
     def cfg(self, ns=None, nil=None, pred=None, ordered=None):
         rng = self.rng
         if ns is None:
